@@ -219,7 +219,9 @@ pub fn gen(seed: u64, tier: Tier, k: u64) -> Value {
     }
     // integers handed over as immediate values, deferred words, or a per-entry mix of both
     let defer = *rng.pick(&[0u8, 0, 1, 1, 2]);
-    let case = DirCase { seed: rng.next(), vstores: vec![indexed], stores: vec![store], indexes, defer };
+    // free data of the indexes (and of the directory pack when it is created bare): zero, or arbitrary bytes
+    let free = if rng.chance(1, 2) { rng.next() | 1 } else { 0 };
+    let case = DirCase { seed: rng.next(), vstores: vec![indexed], stores: vec![store], indexes, defer, free };
     let mut v = case.to_json();
     v["via"] = json!(if rng.chance(1, 2) { "file" } else { "mem" });
     v
